@@ -516,6 +516,24 @@ class Engine:
             if isinstance(c, SB):
                 self._on_axiom(c.z, atom.idx)
         self.round_atoms.append((fn, r, x))
+        if fn == "rint" and self.o.get("rint_pin"):
+            # opt-in: when the path condition confines x to one open interval (n - 1/2, n + 1/2), rint(x) IS the integer n
+            # (integrality, which the real-valued function symbol with lemma L1 alone does not know)
+            res, m = self.check([], x.atomset(), timeout_ms=2000)
+            if res == "sat":
+                try:
+                    val = x.feval(self.env_from_model(m))
+                    n = int(round(val))
+                    inside = (x > n - half) & (x < n + half)
+                    if isinstance(inside, SB):
+                        r2, _ = self.check([z3.Not(inside.z)], inside.atoms, timeout_ms=2000)
+                        if r2 == "unsat":
+                            self._on_axiom(atom.z == n, atom.idx)
+                            self.lemmas.add("rint pinned: path condition confines x to (n-1/2, n+1/2) => rint(x) = n (solver-checked per atom)")
+                    elif inside is True:
+                        self._on_axiom(atom.z == n, atom.idx)
+                except Exception:
+                    pass
 
     def _shift_instance(self, atom, r, x, r2, x2):
         """if x - x2 (or x + x2) is an integer-valued expression (integer combination of declared integer atoms) add
